@@ -394,15 +394,22 @@ func srcMapping(c srcCase) map[string]string {
 	return m
 }
 
-func mappedCallSQL(c anaCase, m map[string]string) string {
+func mappedCallSQL(c anaCase, m map[string]string) string { return mappedCallSQLOpt(c, m, true) }
+
+// mappedCallSQLOpt: parens=false writes the mapped PARTITION BY / ORDER BY items without enclosing parentheses.
+func mappedCallSQLOpt(c anaCase, m map[string]string, parens bool) string {
+	wrap := paren
+	if !parens {
+		wrap = func(e string) string { return e }
+	}
 	d := c
 	d.Partition = nil
 	for _, p := range c.Partition {
-		d.Partition = append(d.Partition, paren(m[p]))
+		d.Partition = append(d.Partition, wrap(m[p]))
 	}
 	d.Order = nil
 	for _, o := range c.Order {
-		o.Col = paren(m[o.Col])
+		o.Col = wrap(m[o.Col])
 		d.Order = append(d.Order, o)
 	}
 	switch c.Arg {
